@@ -18,6 +18,16 @@ AllPaths == <<"f1", "f2", "f3", "f4", "f5", "f6", "f7", "f8", "f9", "f10", "f11"
 NPaths(sd) == IF sd % 4 = 0 THEN 19 ELSE IF sd % 4 = 1 THEN 3 ELSE IF sd % 4 = 2 THEN 6 ELSE 17
 PathOf(sd, t, j) == AllPaths[Pick(sd, t, j, NPaths(sd)) + 1]
 
+(* prompt lines made of several commands: a save in the middle of a line, an undo after it, a switch at the end *)
+WW == [k |-> "w", path |-> "", whole |-> TRUE, beg |-> 0, end |-> 0, force |-> TRUE, fault |-> ""]
+DD == [k |-> "d"]
+TT == [k |-> "top"]
+Elem3(i, p) == CASE i = 0 -> <<TT, DD, WW, DD>>
+                 [] i = 1 -> <<DD, WW>>
+                 [] i = 2 -> <<WW, DD>>
+                 [] i = 3 -> <<DD, WW, [k |-> "u"]>>
+                 [] i = 4 -> <<DD, [k |-> "e", path |-> p, force |-> TRUE]>>
+                 [] OTHER -> <<TT, DD, WW, DD, [k |-> "u"], [k |-> "redo"]>>
 GenCmd(st, sd, t) ==
     LET k == Pick(sd, t, 0, 100)
         n == Len(Cur(st).lb.lines)
@@ -27,8 +37,10 @@ GenCmd(st, sd, t) ==
     IN IF filling THEN (IF Dirty(Cur(st)) /\ ~f(3) THEN [k |-> "w", path |-> "", whole |-> TRUE, beg |-> 0, end |-> 0, force |-> TRUE, fault |-> ""]
                         ELSE IF Pick(sd, t, 8, 4) = 0 THEN [k |-> "a", n |-> 1]
                         ELSE [k |-> "e", path |-> AllPaths[Min2(NPaths(sd), Len(st.tab) + Pick(sd, t, 2, 2))], force |-> f(3)])
+       ELSE IF k < 4 THEN [k |-> "line", cs |-> Elem3(Pick(sd, t, 2, 6), PathOf(sd, t, 3))]
        ELSE IF k < 18 THEN [k |-> "e", path |-> PathOf(sd, t, 2), force |-> f(5)]
        ELSE IF k < 23 THEN [k |-> "e", path |-> "", force |-> f(3)]
+       ELSE IF k < 26 THEN [k |-> "top"]
        ELSE IF k < 35 THEN [k |-> "a", n |-> 1 + Pick(sd, t, 2, 2)]
        ELSE IF k < 40 THEN [k |-> "d"]
        ELSE IF k < 46 THEN [k |-> "u"]
@@ -63,6 +75,11 @@ Toks(a, k) == IF k = 0 THEN <<>> ELSE Tok(a) \o <<10>> \o Toks(a + 1, k - 1)
 Str(s) == CASE s = "" -> <<>> [] OTHER -> LET i == CHOOSE j \in 1..19 : AllPaths[j] = s IN <<102>> \o Num(i)   \* "f<i>"
 Bang(f) == IF f THEN <<33>> ELSE <<>>
 Sp(p) == IF p = "" THEN <<>> ELSE <<32>> \o Str(p)
+RECURSIVE LineStr(_)
+LineStr(cs) == IF cs = <<>> THEN <<>>
+               ELSE (CASE Head(cs).k = "d" -> <<100>> [] Head(cs).k = "top" -> <<49>> [] Head(cs).k = "u" -> <<117>> [] Head(cs).k = "redo" -> <<114, 101, 100, 111>>
+                       [] Head(cs).k = "w" -> <<119, 33>> [] Head(cs).k = "e" -> <<101, 33, 32>> \o Str(Head(cs).path))
+                    \o (IF Len(cs) > 1 THEN <<124>> ELSE <<>>) \o LineStr(Tail(cs))
 Typed(st, c) ==
     CASE c.k = "e" -> <<101>> \o Bang(c.force) \o Sp(c.path) \o <<10>>
       [] c.k = "w" -> (IF c.whole THEN <<>> ELSE Num(c.beg + 1) \o <<44>> \o Num(c.end)) \o <<119>> \o Bang(c.force) \o Sp(c.path) \o <<10>>
@@ -74,9 +91,11 @@ Typed(st, c) ==
                       (CASE c.how = "num" -> Num(c.n) [] c.how = "next" -> <<43>> [] c.how = "prev" -> <<45>>
                          [] c.how = "alias" -> <<(<<37, 35, 94>>)[c.n]>> [] c.how = "del" -> <<33>> [] OTHER -> <<126>>) \o <<10>>
       [] c.k = "a" -> <<97, 10>> \o Toks(st.nid, c.n) \o <<46, 10>>
+      [] c.k = "top" -> <<49, 10>>
       [] c.k = "d" -> <<100, 10>>
       [] c.k = "u" -> <<117, 10>>
       [] c.k = "redo" -> <<114, 101, 100, 111, 10>>
+      [] c.k = "line" -> LineStr(c.cs) \o <<10>>
       [] c.k = "se" -> <<115, 101, 32>> \o (IF c.val THEN <<>> ELSE <<110, 111>>) \o (IF c.opt = "aw" THEN <<97, 119>> ELSE <<119, 97>>) \o <<10>>
       [] OTHER -> <<>>
 
